@@ -6,6 +6,7 @@
 From Coq Require Import List ZArith Bool Arith Permutation String.
 From TR Require Import Extracted model.Writer proofs.WriterProofs.
 From TR Require Import model.GoSem model.RawExt translated.ThermalRaw proofs.TieRaw.
+From TR Require Import model.BufExt translated.BufferedFile proofs.TieBuf.
 Import ListNotations.
 Close Scope string_scope.
 Open Scope list_scope.
@@ -372,4 +373,57 @@ Proof. exact writer_write_fault_panics. Qed.
 (* every function of the unit is translated *)
 Theorem C18_source_loop_all_translated : untranslated_WriterLoop = [] /\
     translated_WriterLoop = ["WriterLoop_fn_writer"%string; "WriterLoop_fn_handleConn"%string].
+Proof. split; reflexivity. Qed.
+
+(* ---- the file object itself: cmd/thermal-writer/bufferedfile.go, translated on every run ----
+   coq/translated/BufferedFile.v: newBufferedFile, bufferedFile.Write, bufferedFile.Close.  model/BufExt.v
+   states what os.Create, os.File.Write (all or nothing, fault script), os.File.Close and bufio.Writer
+   (Write / Flush as the standard library defines them, mid-stream flushes and the sticky error
+   included) do.  Seen through [accepted] (bytes on disk ++ bytes buffered) the translated object IS the
+   io.WriteCloser that model/RawExt.v assumes for the CPTR builder above. *)
+Theorem C18_source_file_object_new : forall w name,
+    bw_stage w = 0 -> bw_create_fail w = false -> bw_bad w = false ->
+    exists w', BufferedFile_fn_newBufferedFile bext name w = Ok (THE_FILE, 0) w' /\
+      live w' /\ bw_disk w' = [] /\ bw_buf w' = [] /\ bw_size w' = BUF_SIZE /\ bw_err w' = 0 /\
+      bw_closed w' = false /\ bw_bytes w' = bw_bytes w /\ bw_faults w' = bw_faults w /\ bw_close_fail w' = bw_close_fail w.
+Proof. exact tie_newBufferedFile_ok. Qed.
+
+Theorem C18_source_file_object_create_fails : forall w name,
+    bw_stage w = 0 -> bw_create_fail w = true ->
+    BufferedFile_fn_newBufferedFile bext name w = Ok (mkbufferedFile 0 0, 1) (set_pending w 1).
+Proof. exact tie_newBufferedFile_fail. Qed.
+
+(* Write(p) = (n, e): exactly the first n bytes of p are accepted, after everything accepted before - with
+   or without write faults, whatever the buffer holds; e = 0 -> all of p; the disk only grows by appending *)
+Theorem C18_source_file_object_write : forall w t,
+    live w ->
+    exists n e w', bufferedFile_Write bext THE_FILE t w = Ok (THE_FILE, (n, e)) w' /\
+      accepted w' = accepted w ++ firstn (Z.to_nat n) (bchunk w t) /\
+      (e = 0 -> n = blen (bchunk w t) /\ bw_err w' = bw_err w) /\ (e <> 0 -> bw_err w' <> 0) /\
+      0 <= n <= blen (bchunk w t) /\
+      same_object w w' /\ live w' /\ bw_closed w' = bw_closed w /\
+      (bw_faults w = [] -> bw_closed w = false -> bw_err w = 0 -> e = 0 /\ bw_faults w' = []).
+Proof. exact tie_bufferedFile_Write. Qed.
+
+(* Close = nil: the file holds exactly everything accepted and is closed; an earlier write error is
+   returned again and then the file is neither written nor closed *)
+Theorem C18_source_file_object_close : forall w,
+    live w ->
+    exists e w', bufferedFile_Close bext THE_FILE w = Ok (THE_FILE, e) w' /\
+      (e = 0 -> bw_disk w' = accepted w /\ bw_buf w' = [] /\ bw_closed w' = true) /\
+      same_object w w' /\ accepted w' = accepted w /\ bw_bad w' = false /\
+      (bw_err w <> 0 -> e = bw_err w /\ bw_closed w' = bw_closed w /\ bw_disk w' = bw_disk w) /\
+      (bw_faults w = [] -> bw_closed w = false -> bw_err w = 0 -> bw_close_fail w = false -> e = 0).
+Proof. exact tie_bufferedFile_Close. Qed.
+
+(* non-vacuity: a world that is [live] with a half-full buffer, and one whole life computed *)
+Example C18_source_file_object_example :
+    src_buf_file 7 [[1; 2; 3]; [4; 5]; []; [6]] [] false false <> Panicked (bw_init [] [] false false) /\
+    (match src_buf_file 7 [[1; 2; 3]; [4; 5]; []; [6]] [] false false with
+     | Ok e w => (e, bw_disk w, bw_buf w, bw_closed w, bw_bad w)
+     | Panicked _ => (1, [], [], false, true) end) = (0, [1; 2; 3; 4; 5; 6], [], true, false).
+Proof. split; [discriminate | vm_compute; reflexivity]. Qed.
+
+Theorem C18_source_file_object_all_translated : untranslated_BufferedFile = [] /\
+    translated_BufferedFile = ["BufferedFile_fn_newBufferedFile"%string; "bufferedFile_Write"%string; "bufferedFile_Close"%string].
 Proof. split; reflexivity. Qed.
